@@ -11,6 +11,10 @@ TRANSPARENT_CALLS = (
 )
 
 
+import re as _re
+_STR_CONST = _re.compile(r"^Ty\(&'\{erased\} str, \"(.*)\"\)$")
+
+
 class Slicer:
     def __init__(self, body, max_depth=60):
         self.b = body
@@ -151,6 +155,9 @@ class Slicer:
                 return ("const", "int", o["int"], o["ty"])
             if "str" in o:
                 return ("const", "str", o["str"])
+            m = _STR_CONST.match(o.get("v", ""))
+            if m:
+                return ("const", "str", m.group(1))
             if "promoted" in o:
                 return ("const", "promoted", o["promoted"])
             if "uneval" in o:
